@@ -222,9 +222,15 @@ def run(report, forced=None):
                disagreements_checked=len(bad), globber_cases=globber_checked,
                traces_validated_against_impl=total - len(bad), exhaustive=True,
                exhaustive_scope="pattern/path spaces stated in rule; Globber trees sampled")
+    if forced is None:
+        # the regex translation itself: model text == code text, regex semantics vs CPython re, matchers
+        import h_globre
+        cov.update(h_globre.run_translate_checks(report, rnd, report.tier))
     return report.finish(proof, cov, assumptions=[
-        "the reference matchers (Glob/ShellSpec.v) are the documented semantics; fs/glob.py's regex translation and "
-        "Python's re engine are not modelled, only compared",
+        "the reference matchers (Glob/ShellSpec.v) are the documented semantics; the regex translation of fs/wildcard.py "
+        "and fs/glob.py is modelled (Glob/Translate.v: text compared character by character on every run) and proved "
+        "against them; the atom semantics of Glob/Regex.v, parse_items and re_compiles stand for CPython's re engine: "
+        "trusted, validated against re on every run; IGNORECASE and .lower() ASCII only",
         "case-insensitive comparison restricted to ASCII"])
 
 
@@ -232,6 +238,9 @@ def replay(report, path):
     import fs.glob as G
     with open(path) as fh:
         d = json.load(fh)
+    if "part" in d:
+        import h_globre
+        return h_globre.replay_translate(d)
     p, path_, is_dir = d["pattern"], d["path"], d.get("is_dir", False)
     impl = G.match(p, path_ + ("/" if is_dir else ""))
     spec = common.run_model(["glob glob 1 %s %s %s" % (tok(p), tok(path_), "1" if is_dir else "0")])[0]
